@@ -392,6 +392,14 @@ class Program:
                     cands.setdefault(x.arg, []).append(r)
         if fn.cls is not None and fn.params and fn.params[0] == "self":
             cands.setdefault("self", []).append(fn.cls)
+        # locals bound to class objects:  cls = A  /  cls = A if c else B  (then  obj = cls(...))
+        class_vars: Dict[str, List[ClassInfo]] = {}
+        for node in ast.walk(fn.node):
+            if isinstance(node, ast.Assign) and len(node.targets) == 1 and isinstance(node.targets[0], ast.Name):
+                vals = [node.value.body, node.value.orelse] if isinstance(node.value, ast.IfExp) else [node.value]
+                rs = [self.resolve_name_expr(m, v) if isinstance(v, (ast.Name, ast.Attribute)) else None for v in vals]
+                if rs and all(isinstance(r, ClassInfo) for r in rs):
+                    class_vars.setdefault(node.targets[0].id, []).extend(rs)
         for node in ast.walk(fn.node):
             if isinstance(node, ast.Assign) and len(node.targets) == 1:
                 t = node.targets[0]
@@ -399,6 +407,8 @@ class Program:
                     r = self.resolve_name_expr(m, node.value.func)
                     if isinstance(r, ClassInfo):
                         cands.setdefault(t.id, []).append(r)
+                    elif isinstance(node.value.func, ast.Name) and node.value.func.id in class_vars:
+                        cands.setdefault(t.id, []).extend(class_vars[node.value.func.id])
         # locals bound to an attribute chain of known type:  f_logger = self.function_logger
         for _round in range(2):
             cur = {k: v[0] for k, v in cands.items() if v}
